@@ -114,13 +114,13 @@ BUS_PROPS = {
     'C09': dict(oracle=lambda F, w: oracle.c09(F),
                 profiles=[('lineage', 4), ('redispatch', 2), ('parallel', 2), ('multi_fwd', 2), ('clean', 1)]),
     'C10': dict(oracle=lambda F, w: oracle.c10(F),
-                profiles=[('timeouts_clean', 3), ('timeouts', 4)]),
+                profiles=[('timeouts_clean', 3), ('timeouts', 4), ('timeouts_burn', 2)]),
     'C11': dict(oracle=lambda F, w: oracle.c11(F, _raised(w, F)) + [v for v in oracle.c01(F) if v['clause'] in ('C01.missing', 'C01.duplicate')],
                 profiles=[('errors', 5), ('errors_parallel', 3), ('single', 1)]),
     'C13': dict(oracle=lambda F, w: oracle.c13(F) + [v for v in oracle.c01(F) if v['clause'] != 'C01.hang'] + oracle.hang_violations(F, 'C13'),
                 profiles=[('small_history_flat', 3), ('small_history', 3)]),
     'C14': dict(oracle=lambda F, w: oracle.c14(F),
-                profiles=[('flood_caller', 3), ('flood_handler', 4), ('backlog', 1), ('small_history', 1), ('timeouts', 2), ('timeout_enum', 3)]),
+                profiles=[('flood_caller', 3), ('flood_handler', 4), ('backlog', 1), ('small_history', 1), ('timeouts', 2), ('timeouts_burn', 3), ('timeout_enum', 2)]),
     'C15': dict(oracle=lambda F, w: oracle.c15(F),
                 profiles=[('idle_race', 4), ('idle_dead_loop', 3), ('errors', 1), ('timeouts', 1), ('multi_fwd', 2)]),
     'C17': dict(oracle=lambda F, w: oracle.c17(F, w),
